@@ -335,6 +335,7 @@ func (p *PacketIn) Len() (n uint16) {
 }
 
 func (p *PacketIn) MarshalBinary() (data []byte, err error) {
+	p.Header.Length = p.Len()
 	data, err = p.Header.MarshalBinary()
 
 	b := make([]byte, 16)
